@@ -483,7 +483,19 @@ func hashByName(name string) tree.HashFn {
 	if name == "alt" {
 		return altHash
 	}
+	if name == "z" {
+		return zHash
+	}
 	return tree.Hash
+}
+
+// zHash: SHA-256 with the first two output bytes forced to zero.  Never the all-zero root (the
+// library's "not computed yet" sentinel), but every root LOOKS zero to a test that inspects only
+// part of it.
+func zHash(a, b tree.Root) tree.Root {
+	r := tree.Hash(a, b)
+	r[0], r[1] = 0, 0
+	return r
 }
 
 var currentHash = "sha"
